@@ -201,6 +201,89 @@ func WalkFacts(b *ssa.BasicBlock, idx int, pred *ssa.BasicBlock, cut Cut, facts 
 	}
 }
 
+// WalkPaths is WalkCtx with visits that know how the exploration got there:
+// a block is visited once per context (the recent joins and the edges they
+// were entered through), and the visitor is handed a function that tells which
+// value a phi of such a join holds on the path being explored. For questions
+// about a value that result variables carry to a common exit ("is this return
+// a success on this path?").
+func WalkPaths(b *ssa.BasicBlock, idx int, pred *ssa.BasicBlock, cut Cut, visit func(in ssa.Instruction, incoming func(*ssa.Phi) (ssa.Value, bool)) bool) {
+	type bk struct {
+		b   *ssa.BasicBlock
+		ctx string
+	}
+	visited := map[bk]bool{}
+	absorbed := map[bk]bool{}
+	type key struct {
+		e   Edge
+		ctx string
+	}
+	done := map[key]bool{}
+	type item struct {
+		b   *ssa.BasicBlock
+		idx int
+		ctx joinCtx
+	}
+	var ctx0 joinCtx
+	if pred != nil {
+		ctx0 = ctx0.enter(pred, b)
+	}
+	stack := []item{{b, idx, ctx0}}
+	first := true
+	steps := 0
+	for len(stack) > 0 && steps < 200000 {
+		steps++
+		it := stack[len(stack)-1]
+		stack = stack[:len(stack)-1]
+		partial := first && it.idx > 0
+		first = false
+		k0 := bk{it.b, it.ctx.String()}
+		if partial || !visited[k0] {
+			if !partial {
+				visited[k0] = true
+			}
+			inc := func(ph *ssa.Phi) (ssa.Value, bool) {
+				for _, e := range it.ctx {
+					if e.j == ph.Block() && e.pi < len(ph.Edges) {
+						return ph.Edges[e.pi], true
+					}
+				}
+				return nil, false
+			}
+			stopped := false
+			for i := it.idx; i < len(it.b.Instrs); i++ {
+				if !visit(it.b.Instrs[i], inc) {
+					stopped = true
+					break
+				}
+			}
+			if stopped {
+				if !partial {
+					absorbed[k0] = true
+				}
+				continue
+			}
+		} else if absorbed[k0] {
+			continue
+		}
+		only := it.ctx.decide(it.b, nil)
+		ng := NilGuardEdges(it.b.Parent())
+		for i, s := range it.b.Succs {
+			e := Edge{it.b, i}
+			if cut[e] || ng[e] || (only >= 0 && only != i) {
+				continue
+			}
+			nctx := it.ctx.enter(it.b, s)
+			k := key{e, nctx.String()}
+			if done[k] {
+				continue
+			}
+			done[k] = true
+			stack = append(stack, item{s, 0, nctx})
+		}
+	}
+}
+
 // WalkAfter is Walk starting right after instruction in.
 func WalkAfter(in ssa.Instruction, cut Cut, visit func(ssa.Instruction) bool) {
 	Walk(in.Block(), IndexIn(in)+1, cut, visit)
@@ -1190,7 +1273,29 @@ func NilGuardEdges(fn *ssa.Function) Cut {
 			t := s.Succs[0]
 			if len(t.Preds) > 1 {
 				// a join with the ordinary flow (next iteration, code
-				// behind the if): nothing else happened on the way
+				// behind the if): nothing else happened on the way ...
+				// unless a variable leaves the clause with another value
+				// than it has on the other ways in (`if el.Next() == nil {
+				// found = false }` decides something; it guards nothing)
+				if !t.Dominates(b) {
+					pi := -1
+					for i, p := range t.Preds {
+						if p == s {
+							pi = i
+						}
+					}
+					for _, in := range t.Instrs {
+						ph, isPhi := in.(*ssa.Phi)
+						if !isPhi {
+							break
+						}
+						for i, e := range ph.Edges {
+							if pi >= 0 && i != pi && e != ph.Edges[pi] {
+								okRegion = false
+							}
+						}
+					}
+				}
 				break
 			}
 			s = t
